@@ -142,6 +142,18 @@ Section Concrete.
     rewrite H. reflexivity.
   Qed.
 
+  (* ---- ancestors are the parent chain, depth is its length (no filter is consulted) ---- *)
+  Theorem c_ancestors_abs D F n : In n (ids t) -> c_iterate_ancestors c D F n = Ok (filter F (a_ancestors t n)).
+  Proof. intros Hn. unfold c_iterate_ancestors, h_iterate_ancestors. walk ancestors_spec. Qed.
+  Theorem c_depth_abs D n : In n (ids t) -> is_ktag (ckind_of c) = true -> c_depth c D n = Ok (a_depth t n).
+  Proof.
+    intros Hn Hroot. unfold c_depth, h_depth. walk depth_spec.
+    destruct (N.eq_dec n (cid c)) as [->|Hne].
+    - left. unfold h_is_tag. rewrite root_obj. exact Hroot.
+    - right. right. rewrite <- (abs_iid inh c) in Hne. destruct (has_parent t n Hn Hne) as [s [Hs Hk]].
+      rewrite (a_parent_of_kid t Tnd s n Hs Hk). discriminate.
+  Qed.
+
   (* every routine is a function of the one tree `t` *)
   Theorem c_nav_one_tree D F n : In n (ids t) ->
     c_iterate_children c D F n = Ok (filter (fand D F) (a_children t n))
